@@ -40,6 +40,7 @@ def ports_oracle(case, obs):
     t = 0
     eph = []          # (t, host, port, what)
     holds = [[] for _ in range(n)]   # per host: [start, end|None, port|None, proto, obj]
+    rst_watch = [[] for _ in range(n)]
 
     def start(h, o, proto):
         rec = [t, None, o.get("port"), proto, o]
@@ -67,9 +68,27 @@ def ports_oracle(case, obs):
             continue
         if item[0] in ("bounce", "truncated"):
             continue
+        if item[0] == "rst":
+            # the RST of an abandoned connect reaches host T: if that connect had been accepted
+            # there, the accepted stream is reset (its entry goes although the object lives on)
+            _, k, T, src, sid, rport, code = item
+            rst_watch[T].append((rport, code, t))
+            continue
         if item[0] == "probe":
             k = item[1]
             tabs = obs["tables"][k]
+            for T in range(n):
+                if not rst_watch[T]:
+                    continue
+                present = {tuple(x) for x in tabs[T]["streams"]}
+                for rec in holds[T]:
+                    o = rec[4]
+                    when = [tt for (rp, cd, tt) in rst_watch[T] if o.get("key") and o["key"][0] == rp and o["key"][1] == cd]
+                    if o["t"] == "stream" and not o.get("out") and tuple(o["key"]) not in present and when:
+                        end = max(min(when), rec[0] + 1)
+                        if rec[1] is None or rec[1] > end:
+                            rec[1] = end
+                rst_watch[T] = []
             for h in range(n):
                 objs = [r[4] for r in holds[h] if r[1] is None]
                 want_udp = sorted(o["port"] for o in objs if o["t"] == "udp")
